@@ -411,6 +411,26 @@ def fresh_segment_names(ctx, prog, rid):
              'file_id() = %s' % ' | '.join(flow.render(a)[:110] for a in alts))
 
 
+def compaction_timestamp_legacy_only(ctx, prog, rid):
+    """In compact_old_wal_segments the timestamp comparison may call an entry covered only when the entry has no sequence number (shared: C02.R2, C09.R8)."""
+    comp = ctx.body(rid, 'HnswBackend::compact_old_wal_segments')
+    if comp is None:
+        return
+    util.bind_role(comp, 'covered', type_rx=r'^bool$', origin_rx=r'WalEntry\.seq_no (Le|Lt|Eq) arg:snapshot_last_wal_seq')
+    cv = flow.Origin(comp, stop_at_vars=True)
+    cl = comp.var_local('covered')
+    if not cl:
+        ctx.missing(rid, 'compact_old_wal_segments: variable covered')
+        return
+    ts_defs = [d[0] for d in comp.defs.get(cl[0], []) if d[2] == 'assign' and
+               re.match(r'^\(var:entry→WalEntry\.timestamp (Le|Lt|Eq) arg:snapshot_timestamp\)$', flow.render(cv.of_rvalue(d[3]['rv'], 0, frozenset())))]
+    zc = edges_matching(comp, cv, r'^cmp\[\+ var:entry→WalEntry\.seq_no == 0\]$')
+    okzc = (not ts_defs) or (bool(zc) and all(t not in comp.reach([0], avoid_edges=[(i_, tg) for i_, tg, p_ in zc]) for t in ts_defs))
+    ctx.inst(rid, comp.short, 'compaction: timestamp coverage only for legacy entries (seq_no = 0)', okzc,
+             'the timestamp verdict at %s is %s' % ([comp.loc_of(t) for t in ts_defs], 'only behind the seq_no == 0 edge' if okzc else
+              'reachable for an entry with a sequence number: writes acknowledged in the same second as the snapshot count as covered and their segments are deleted'))
+
+
 def run(ctx, prog):
     ctx.not_decided = ['equality of recovered and live state over histories × configurations',
                        'bit-exact idempotence of normalisation (floating point)']
@@ -481,6 +501,7 @@ def run(ctx, prog):
             okc = False
         ctx.inst('C02.R2', comp.short, 'covered ⇐ seq_no ≤ snapshot seq (or legacy timestamp ≤ snapshot timestamp)', okc,
                  'definitions of `covered`: %s' % alts)
+        compaction_timestamp_legacy_only(ctx, prog, 'C02.R2')
         # `!covered` clears all_entries_covered on every path to the next entry
         al = comp.var_local('all_entries_covered')
         sw = [(i, preds) for i, preds in switches(comp, cv) if any(p in ('bool[var:covered]', '!bool[var:covered]') for _, p in preds)]
